@@ -37,6 +37,17 @@ THEOREMS = [
     "PorepyVerif.C04.adtpfa_shipped_gain_zero",
     "PorepyVerif.C04.total_residual_eq_total_accumulation_coded",
     "PorepyVerif.C04.closed_no_source_conservation",
+    "PorepyVerif.C04.divergence_sum_is_boundary_flux",
+    "PorepyVerif.C04.intercell_fluxes_cancel",
+    "PorepyVerif.C04.divergence_sum_signed_boundary",
+    "PorepyVerif.C04.rowStochastic_matMul",
+    "PorepyVerif.C04.rowStochastic_applyUpdates",
+    "PorepyVerif.C04.h2_of_set_projections",
+    "PorepyVerif.C04.checkH1_sound",
+    "PorepyVerif.C04.checkH2_sound",
+    "PorepyVerif.C04.checkNC_sound",
+    "PorepyVerif.C04.checkClosed_sound",
+    "PorepyVerif.C04.checked_conservation",
     "PorepyVerif.C04.converged_step_conserves",
 ]
 LEAN_MODULES = ["PorepyVerif.C04.Props"]
@@ -50,7 +61,9 @@ RULE = ("case = configuration (2-D, 0-3 fractures incl. crossing / T / immersed 
         "MassAndEnergyBalance: mass and energy balance) x fluid (compressible + thermal expansion / incompressible) x flux "
         "discretisation (Mpfa default / Tpfa) x state (seeded random pressure, temperature and interface fluxes at the iterate "
         "AND at the previous time step, amplitude 0.01-5, dt dyadic 1/4-8, upwind directions consistent with the state or "
-        "stale). Closed domain: Neumann conditions with zero flux everywhere, no external sources. quick tier: 4 prepared "
+        "stale; amplitudes 1e-8..40, dt 2^-20..2^20). Default closed domain without sources; strata: external sources (super()+array, as the "
+        "docstrings advise: the -sum(src) term) and an open Dirichlet west boundary (the boundary-outflow term of total_residual_balance). "
+        "Per case also the construction of the integrated projections (transposed averaged maps, row sums) is sent to the driver. quick tier: 4 prepared "
         "models (always one non-matching, one simplex, one Cartesian with crossing fractures) x 3 states; non-trivial = "
         "at least one fracture (interface fluxes present); distinct = distinct (configuration, model, fluid, discretisation, state)")
 TRUSTED = [
@@ -70,7 +83,12 @@ EXPLANATION = ("CORE: theorem total_residual_eq_total_accumulation over Q for an
                "fluxes): H2 + Neumann consistency + closed boundary => sum of residuals = sum of accumulation rate - sources; "
                "total_residual_eq_total_accumulation_coded needs only H1+H2+H4 when every boundary matrix is one of the coded ones (upwind "
                "rhs_neu, Tpfa bound_flux, repaired differentiable Tpfa); adtpfa_shipped_gain_zero shows why FouriersLawAd as shipped is not "
-               "conservative (open finding). Tie: hypotheses evaluated exactly on "
+               "conservative (open finding). Clause map: 'sum of residuals = accumulation rate for every state' -> "
+               "total_residual_eq_total_accumulation(_coded/_upwind), closed_no_source_conservation, checked_conservation (all hypotheses as the "
+               "Boolean checkAll evaluated by the driver per case); 'inter-cell fluxes cancel' -> divergence_sum_is_boundary_flux, "
+               "intercell_fluxes_cancel, divergence_sum_signed_boundary; 'interface fluxes cancel' -> coupling_cancels with H2 derived from the "
+               "projection construction (rowStochastic_matMul, rowStochastic_applyUpdates, h2_of_set_projections); 'nothing created or lost' -> "
+               "converged_step_conserves; sources / open boundary -> total_residual_balance. Tie: hypotheses evaluated exactly on "
                "the real matrices by the Lean driver, residual recombined by the Lean model from real sub-operator values and "
                "compared with the real residual, conclusion checked directly on EquationSystem.evaluate (oracle). Partial: the flux "
                "constitutive laws are not modelled, only their decomposition is checked per sample.")
@@ -125,8 +143,15 @@ _MODELS: dict = {}
 _EVAL: dict = {}
 
 
-def _build_model(config, kind, compressible, tpfa, ad_flux=False):
-    key = (config, kind, bool(compressible), bool(tpfa), bool(ad_flux))
+def _ext_source_values(sds, which):
+    """Deterministic, sign-changing external source per cell (integrated over the cell), distinct per equation."""
+    n = sum(sd.num_cells for sd in sds)
+    k = np.arange(n)
+    return (0.25 if which == "mass" else -0.5) * (((k * 7 + 3) % 5) - 1.5) / 4.0
+
+
+def _build_model(config, kind, compressible, tpfa, ad_flux=False, ext_source=False, open_bc=False):
+    key = (config, kind, bool(compressible), bool(tpfa), bool(ad_flux), bool(ext_source), bool(open_bc))
     if key in _MODELS:
         return _MODELS[key]
     import porepy as pp
@@ -170,6 +195,27 @@ def _build_model(config, kind, compressible, tpfa, ad_flux=False):
         def bc_type_enthalpy_flux(self, sd):
             return self._neu(sd)
 
+    class OpenWestBoundary(ClosedBoundary):
+        """Dirichlet data (pressure 0.7, temperature 0.4) on the west side, no-flow elsewhere: in/outflow through the boundary."""
+
+        def _neu(self, sd):
+            return pp.BoundaryCondition(sd, self.domain_boundary_sides(sd).west, "dir")
+
+        def bc_values_pressure(self, bg):
+            return 0.7 * np.ones(bg.num_cells)
+
+        def bc_values_temperature(self, bg):
+            return 0.4 * np.ones(bg.num_cells)
+
+    class ExternalSource(pp.PorePyModel):
+        """External sources added the way the docstrings of fluid_source / energy_source advise (super() + extra term)."""
+
+        def fluid_source(self, subdomains):
+            return super().fluid_source(subdomains) + pp.ad.DenseArray(_ext_source_values(subdomains, "mass"), "c04_mass_source")
+
+        def energy_source(self, subdomains):
+            return super().energy_source(subdomains) + pp.ad.DenseArray(_ext_source_values(subdomains, "energy"), "c04_energy_source")
+
     class TpfaFluxes(pp.PorePyModel):
         def darcy_flux_discretization(self, subdomains):
             return pp.ad.TpfaAd(self.darcy_keyword, subdomains)
@@ -183,7 +229,8 @@ def _build_model(config, kind, compressible, tpfa, ad_flux=False):
     ad = ()
     if ad_flux:
         ad = (pp.constitutive_laws.DarcysLawAd,) + ((pp.constitutive_laws.FouriersLawAd,) if kind == "thermal" else ())
-    bases = (geo, ClosedBoundary) + ((TpfaFluxes,) if tpfa else ()) + ad + (physics,)
+    bases = (geo, OpenWestBoundary if open_bc else ClosedBoundary) + ((ExternalSource,) if ext_source else ()) \
+        + ((TpfaFluxes,) if tpfa else ()) + ad + (physics,)
     Model = type("C04Model", bases, {})
     params = {
         "times_to_export": [],
@@ -214,7 +261,8 @@ _PLAN: dict = {}
 
 
 def _state(rng):
-    return {"state_seed": rng.randrange(1 << 30), "amp": rng.choice([0.01, 1.0, 1.0, 5.0]), "dt": rng.choice([0.25, 0.5, 1.0, 2.0, 8.0]),
+    return {"state_seed": rng.randrange(1 << 30), "amp": rng.choice([1e-8, 0.01, 1.0, 1.0, 5.0, 40.0]),
+            "dt": rng.choice([2.0 ** -20, 0.25, 0.5, 1.0, 2.0, 8.0, 2.0 ** 20]),
             "consistent_upwind": rng.random() < 0.6,
             "special": rng.choice(["none", "none", "none", "zero_interface_flux", "uniform_previous", "steady"])}
 
@@ -234,13 +282,16 @@ def gen_case(rng, tier):
                 p["compressible"] = (k + flip) % 2 == 0
                 p["tpfa"] = rng.random() < 0.3
                 p["ad_flux"] = (k == 3)  # DarcysLawAd in the flow model; FouriersLawAd is covered by the replayed finding / corpus case
+                p["ext_source"] = (k == 2)  # external sources: the -sum(src) term of the balance
+                p["open_bc"] = (k == 3)     # open (Dirichlet) west boundary: the boundary-outflow term of the general balance
             _PLAN[tier] = {"plan": plan, "k": 0}
         st = _PLAN[tier]
         base = st["plan"][st["k"] % len(st["plan"])]
         st["k"] += 1
     else:
         base = {"config": rng.choice(list(CONFIGS)), "kind": rng.choice(["flow", "thermal"]),
-                "compressible": rng.random() < 0.5, "tpfa": rng.random() < 0.3, "ad_flux": rng.random() < 0.25}
+                "compressible": rng.random() < 0.5, "tpfa": rng.random() < 0.3, "ad_flux": rng.random() < 0.25,
+                "ext_source": rng.random() < 0.25, "open_bc": rng.random() < 0.25}
     c = dict(base)
     c.update(_state(rng))
     return c
@@ -315,7 +366,8 @@ def _evaluate(case):
     import scipy.sparse as sps
 
     ad_flux = bool(case.get("ad_flux", False))
-    m = _build_model(case["config"], case["kind"], case["compressible"], case["tpfa"], ad_flux)
+    m = _build_model(case["config"], case["kind"], case["compressible"], case["tpfa"], ad_flux,
+                     bool(case.get("ext_source", False)), bool(case.get("open_bc", False)))
     _set_state(m, case)
     # how the interface Fourier flux enters the face fluxes: differentiable Tpfa (repaired form, see finding), Tpfa as coded, or Mpfa
     fourier_chan = "adtpfa" if ad_flux else ("tpfa" if case["tpfa"] else "bound_flux")
@@ -396,8 +448,24 @@ def _evaluate(case):
         # magnitude of the terms (for tolerances)
         terms = sum(float(np.abs((a1[i] - a0[i]) / dt).sum() + (abs(Ds[i]) @ np.abs(flux[i])).sum() + np.abs(source[i]).sum())
                     for i in range(len(sds)))
-        out["eqs"][eq] = {"r": r, "a1": a1, "a0": a0, "flux": flux, "source": source, "F": F, "src": src, "cps": cps, "neu": neu,
+        # what the configuration prescribes: external source per cell, and the own flux through EXTERNAL boundary faces
+        src_known = _split(_ext_source_values(sds, eq) if case.get("ext_source") else np.zeros(sum(ncs)), ncs)
+        ext_out = 0.0
+        if case.get("open_bc"):
+            for i, sd in enumerate(sds):
+                if sd.dim > 0:
+                    ext = np.asarray(sd.tags["domain_boundary_faces"], dtype=bool)
+                    cs = np.asarray(Ds[i].sum(axis=0)).ravel()
+                    ext_out += float((cs[ext] * flux[i][ext]).sum())
+        ext_masks = [np.asarray(sd.tags["domain_boundary_faces"], dtype=bool) if sd.dim > 0 else np.zeros(0, dtype=bool) for sd in sds]
+        out["eqs"][eq] = {"src_known": src_known, "ext_out": ext_out, "ext_masks": ext_masks, "open_bc": bool(case.get("open_bc")), "r": r, "a1": a1, "a0": a0, "flux": flux, "source": source, "F": F, "src": src, "cps": cps, "neu": neu,
                           "upw_real": upw_real, "D": Ds, "dt": dt, "scale": max(terms, 1e-300)}
+    # construction of the integrated projections: averaged maps (after all grid replacements) and their transposes
+    out["proj"] = []
+    for j, intf in enumerate(intfs):
+        for side, avg, pint in (("primary", intf.primary_to_mortar_avg(), intf.mortar_to_primary_int()),
+                                ("secondary", intf.secondary_to_mortar_avg(), intf.mortar_to_secondary_int())):
+            out["proj"].append({"intf": j, "side": side, "avg": sps.coo_matrix(avg), "int": sps.coo_matrix(pint)})
     if len(_EVAL) > 400:
         _EVAL.clear()
     _EVAL[key] = out
@@ -433,12 +501,18 @@ def impl_run(case):
             "res": [[float(x) for x in ri] for ri in e["r"]],
             "total": float(sum(ri.sum() for ri in e["r"])),
             "acc": float(sum(((e["a1"][i] - e["a0"][i]) / e["dt"]).sum() for i in range(nsd))),
-            "src": 0.0, "outflow": 0.0, "net": [0.0] * len(e["cps"]),
+            "src": float(sum(x.sum() for x in e["src_known"])), "outflow": e["ext_out"], "net": [0.0] * len(e["cps"]),
             "h1": h1, "h2dev": h2dev, "targets": targets, "gaindev": gaindev,
             "upwindB": [[float(x) for x in u] for u in e["upw_real"]],
             "Bdiag": [None if cp["real_diag"] is None else [float(x) for x in cp["real_diag"]] for cp in e["cps"]],
             "scale": e["scale"],
         }
+    res["proj"] = []
+    for p in E["proj"]:
+        a = p["avg"].tocsr()
+        rows = np.asarray(a.sum(axis=1)).ravel()
+        res["proj"].append({"rowdev": float(np.abs(rows - 1).max()) if rows.size else 0.0,
+                            "int": sorted([int(r), int(c), frac(float(v))] for r, c, v in zip(p["int"].row, p["int"].col, p["int"].data) if v != 0)})
     return res
 
 
@@ -464,12 +538,16 @@ def model_ops(case):
                 d["B"] = _trip(cp["B"])
             cps.append(d)
         ops.append({"op": "mdg", "eq": eq, "dt": frac(e["dt"]), "sds": sds, "cps": cps})
+    for p in E["proj"]:
+        ops.append({"op": "setproj", "n": int(p["avg"].shape[0]), "ncols": int(p["avg"].shape[1]), "avg": _trip(p["avg"])})
     return ops
 
 
 def model_decode(outs, case):
     eqs = ["mass"] + (["energy"] if case["kind"] == "thermal" else [])
-    return {eq: o for eq, o in zip(eqs, outs)}
+    d = {eq: o for eq, o in zip(eqs, outs)}
+    d["proj"] = outs[len(eqs):]
+    return d
 
 
 def compare(impl, model, case):
@@ -477,7 +555,21 @@ def compare(impl, model, case):
         return "implementation run failed: " + impl["harness_exc"]
     if set(impl) != set(model):
         return f"equations {sorted(impl)} vs {sorted(model)}"
+    if len(impl["proj"]) != len(model["proj"]):
+        return "number of projection ops differs"
+    for k, (pa, pb) in enumerate(zip(impl["proj"], model["proj"])):
+        if "err" in pb:
+            return f"projection {k}: driver answered {pb}"
+        fr = lambda x: float(Fraction(x))
+        if fr(pb["rowdev"]) > 1e-12 or abs(pa["rowdev"] - fr(pb["rowdev"])) > 1e-12:
+            return f"projection {k}: averaged map is not row-stochastic: numpy {pa['rowdev']} Lean {pb['rowdev']}"
+        if any(abs(fr(c) - 1) > 1e-12 for c in pb["colsums"]):
+            return f"projection {k}: transposed averaged map does not have unit column sums"
+        if sorted([int(r), int(c), str(v)] for r, c, v in pb["int"] if Fraction(v) != 0) != [[r, c, str(v)] for r, c, v in pa["int"]]:
+            return f"projection {k}: real integrated projection is not the transpose of the averaged map (_set_projections)"
     for eq in impl:
+        if eq == "proj":
+            continue
         a, b = impl[eq], model[eq]
         if "err" in b:
             return f"{eq}: driver answered {b}"
@@ -498,6 +590,8 @@ def compare(impl, model, case):
         for j, (x, y) in enumerate(zip(a["net"], b["net"])):
             if abs(x - f(y)) > tol:
                 return f"{eq}: interface flux {j} creates {f(y)} between primary and secondary (tol {tol:.3g})"
+        if b.get("exact") and Fraction(b["total"]) != Fraction(b["acc"]) - Fraction(b["src"]):
+            return f"{eq}: all Boolean hypotheses hold exactly but the model's totals differ: theorem checked_conservation contradicted"
         if a["h1"] != b["h1"] or not all(b["h1"]):
             return f"{eq}: H1 (column sums of the divergence in {{0,1,-1}}): numpy {a['h1']} Lean {b['h1']}"
         if a["targets"] != b["targets"] or not all(b["targets"]):
@@ -525,6 +619,8 @@ def oracle(case):
     for eq, e in E["eqs"].items():
         total = sum(float(ri.sum()) for ri in e["r"])
         acc = sum(float(((e["a1"][i] - e["a0"][i]) / e["dt"]).sum()) for i in range(len(e["r"])))
+        # prescribed external sources leave, prescribed open-boundary flux leaves (both zero in the closed, source-free case)
+        acc = acc - float(sum(x.sum() for x in e["src_known"])) + e["ext_out"]
         if not (abs(total - acc) <= RTOL * e["scale"]):
             if eq == "energy" and case.get("ad_flux") and _adtpfa_signature(e, total - acc):
                 return {"what": (f"energy balance with FouriersLawAd not conservative on {case['config']}: sum of residuals {total!r} vs total "
@@ -553,13 +649,13 @@ def _adtpfa_signature(e, diff):
                 miss += cp["B"].tocsr() @ (cp["Ppm"].tocsr() @ cp["lam"])
         cs = np.asarray(e["D"][i].sum(axis=0)).ravel()
         for f in np.nonzero(cs)[0]:
-            if abs(F[f]) <= tol:
+            if abs(F[f]) <= tol or (e["open_bc"] and e["ext_masks"][i][f]):
                 continue
             if abs(F[f] + miss[f]) > tol:
                 return False
             absent += 1
             leak += cs[f] * F[f]
-    src_left = sum(float(np.abs(s).sum()) for s in e["src"])
+    src_left = sum(float(np.abs(s - k).sum()) for s, k in zip(e["src"], e["src_known"]))
     return absent > 0 and abs(diff - leak) <= tol and src_left <= tol
 
 
@@ -591,6 +687,10 @@ def shrink_candidates(case):
         yield dict(case, tpfa=True)
     if case.get("ad_flux"):
         yield dict(case, ad_flux=False)
+    if case.get("ext_source"):
+        yield dict(case, ext_source=False)
+    if case.get("open_bc"):
+        yield dict(case, open_bc=False)
 
 
 def stats(cases, impl_outs):
@@ -602,10 +702,25 @@ def stats(cases, impl_outs):
         c["compressible" if k["compressible"] else "incompressible"] += 1
         c["tpfa" if k["tpfa"] else "mpfa"] += 1
         c["ad_flux" if k.get("ad_flux") else "standard_flux"] += 1
+        c["external_source" if k.get("ext_source") else "no_source"] += 1
+        c["open_west_boundary" if k.get("open_bc") else "closed_boundary"] += 1
+        c[f"dt:{k['dt']:.3g}"] += 1
         c["upwind_consistent" if k["consistent_upwind"] else "upwind_stale"] += 1
         c["special:" + k.get("special", "none")] += 1
         c[f"amp:{k['amp']}"] += 1
-    n_eq = sum(len(o) for o in impl_outs if isinstance(o, dict) and "harness_exc" not in o)
-    n_cp = sum(len(e["net"]) for o in impl_outs if isinstance(o, dict) and "harness_exc" not in o for e in o.values())
+    good = [o for o in impl_outs if isinstance(o, dict) and "harness_exc" not in o]
+    n_eq = sum(len(o) - 1 for o in good)
+    n_cp = sum(len(e["net"]) for o in good for k, e in o.items() if k != "proj")
+    sizes = Counter()
+    for o in good:
+        for k, e in o.items():
+            if k == "proj":
+                sizes["projection_pairs_checked"] += len(e)
+                continue
+            for r in e["res"]:
+                sizes["subdomain_blocks"] += 1
+                sizes["subdomains_with_1_cell(0-D)"] += int(len(r) == 1)
+            sizes["equations_without_interfaces"] += int(len(e["net"]) == 0)
+            sizes["non_dyadic_projection_weights"] += int(any(x > 0 for x in e["h2dev"]))
     return {"counts": dict(sorted(c.items())), "balance_equations_evaluated": n_eq, "interface_flux_couplings": n_cp,
-            "prepared_models": len(_MODELS)}
+            "sizes": dict(sizes), "prepared_models": len(_MODELS)}
